@@ -22,7 +22,7 @@ from pedal.sandbox import mocked
 from pedal.sandbox.constants import TOOL_NAME
 from pedal.sandbox.feedbacks import runtime_error, EXCEPTION_FF_MAP
 from pedal.sandbox.exceptions import SandboxHasNoFunction, SandboxHasNoVariable
-from pedal.sandbox.timeout import timeout
+from pedal.sandbox.timeout import timeout, running_in_helper_thread
 from pedal.sandbox.result import SandboxResult
 from pedal.sandbox.tracer import TRACER_STYLES
 from pedal.utilities import verif_hooks
@@ -125,7 +125,10 @@ class Sandbox:
         Returns:
 
         """
-        if threaded:
+        # Inside a time-limited execution the import is already covered by that
+        # limit; a second helper thread would be orphaned (never terminated)
+        # when the outer one is stopped while waiting for it.
+        if threaded and not running_in_helper_thread():
             return timeout(self.allowed_time, self._import, code, module_name, filename, False, **meta)
         # TODO: Skulpt doesn't support `module.__dict__` manipulation,
         #   but once it does we don't need to manually copy over the attrs afterwards
